@@ -143,6 +143,7 @@ package xmpp
 // the request is a get/set IQ and the handler wrote no reply; it carries the
 // request id and goes to the request's sender.
 //@ func handleInputStream
+//@   lockbalanced[C06,C07,C08]
 //@   noswallow[C08]
 //@   ghost handlerCalls int = 0
 //@   ghost autoReply bool = false
@@ -490,6 +491,7 @@ package xmpp
 //@     invariant[C01,C02,C04] forall j int :: 0 <= j && j <= rangeindex ==> features[j].Name.Space != ns.StartTLS
 
 //@ func (*Session).State
+//@   lockbalanced[C10]
 //@   pure
 //@   ensures result == s.state
 
@@ -757,6 +759,7 @@ package xmpp
 //@ spec outClosed(st SessionState) bool = st & OutputStreamClosed == OutputStreamClosed
 
 //@ func (*Session).outputClosed
+//@   lockbalanced[C10]
 //@   pure
 //@   ensures[C10] result == outClosed(s.state)
 
@@ -775,6 +778,7 @@ package xmpp
 //@   ensures[C10] !outClosed(old(s.state)) ==> wrote == 1
 
 //@ func (*Session).Close
+//@   lockbalanced[C10]
 //@   ensures[C10] s.state == old(s.state) | OutputStreamClosed
 // the closing tag is written while holding the output lock (so it cannot land
 // inside an element another goroutine is in the middle of sending) and the
@@ -792,6 +796,7 @@ package xmpp
 // Transmit entry points: nothing is handed to the encoder once the output is
 // closed, and the caller is told so.
 //@ func send
+//@   lockbalanced[C05,C10]
 //@   nullable start
 //@   noswallow[C05]
 //@   ghost startName xml.Name
@@ -834,6 +839,7 @@ package xmpp
 //@   ensures[C05] result == nil ==> wroteStart && wroteEnd && flushed
 
 //@ func (*Session).Encode
+//@   lockbalanced[C05,C10]
 //@   ghost st0 SessionState
 //@   ghost held bool = false
 //@   callsite (sync.Locker).Lock#1
@@ -853,6 +859,7 @@ package xmpp
 //@   ensures[C10] outClosed(st0) ==> result == ErrOutputStreamClosed
 
 //@ func (*Session).EncodeElement
+//@   lockbalanced[C05,C10]
 //@   ghost st0 SessionState
 //@   ghost held bool = false
 //@   callsite (sync.Locker).Lock#1
@@ -872,6 +879,7 @@ package xmpp
 //@   ensures[C10] outClosed(st0) ==> result == ErrOutputStreamClosed
 
 //@ func (*lockWriteCloser).EncodeToken
+//@   lockbalanced[C05,C10]
 //@   callsite EncodeToken#1
 //@     assert[C05,C10] !outClosed(lwc.w.state) && lwc.err == nil
 //@     assert[C05] arg0 == lwc.w.out.e && arg1 == t
@@ -879,6 +887,7 @@ package xmpp
 //@   ensures[C05,C10] old(lwc.err) != nil ==> result == old(lwc.err)
 
 //@ func (*lockWriteCloser).Flush
+//@   lockbalanced[C10]
 //@   callsite Flush#1
 //@     assert[C10] !outClosed(lwc.w.state) && lwc.err == nil
 //@   ensures[C10] old(lwc.err) == nil && outClosed(old(lwc.w.state)) ==> result == ErrOutputStreamClosed
@@ -896,12 +905,14 @@ package xmpp
 
 // Reads after the input was closed fail with the input-closed error.
 //@ func (*lockReadCloser).Token
+//@   lockbalanced[C10]
 //@   ensures[C10] old(lrc.err) == nil && old(lrc.s.state) & InputStreamClosed == InputStreamClosed ==> result1 == ErrInputStreamClosed && result0 == nil
 
 // A stream error is sent only on an open output, is followed by the closing
 // tag, and is on the wire before it (pending: written to the encoder but not
 // flushed).
 //@ func (*Session).sendError
+//@   lockbalanced[C08,C10]
 //@   requires err != nil
 //@   ghost pending bool = false
 //@   callsite foreign#*
@@ -916,6 +927,7 @@ package xmpp
 //@   ensures[C10] outClosed(old(s.state)) ==> e == err && s.state == old(s.state)
 
 //@ func (*Session).closeInputStream
+//@   lockbalanced[C10]
 //@   callsite foreign#*
 //@     preserves s.state
 //@   ensures[C10] s.state == old(s.state) | InputStreamClosed
@@ -996,6 +1008,7 @@ package xmpp
 // entry for the id is in the table, with the stanza name and the caller's
 // context, before the stanza is sent, and it is gone on every exit.
 //@ func (*Session).sendResp
+//@   lockbalanced[C06]
 //@   noswallow[C06]
 // the wait for the reply ends when the caller's context does
 //@   cancellable[C06]
@@ -1090,3 +1103,7 @@ package xmpp
 //@     assert[C05,C06] arg2 != "" && (exists k int :: 0 <= k && k < len(arg4.Attr) && unq(arg4.Attr[k], "id") && arg4.Attr[k].Value == arg2)
 //@   callsite foreign#*
 //@     preserves start.Attr
+
+// lock discipline: every exit releases the locks it took
+//@ func (*Session).UpdateAddr
+//@   lockbalanced[C12]
